@@ -37,7 +37,7 @@ def snapshot(root, exclude):
 
 def to_node(n, outdir, i=None):
     i = i if i is not None else [0]
-    tg = {"up": b"..", "upup": b"../..", "absout": outdir.encode(), "a": b"a"}[n["tgt"]]
+    tg = {"up": b"..", "upup": b"../..", "absout": outdir.encode(), "a": b"a", "outpipe": outdir.encode() + b"/p"}[n["tgt"]]
     i[0] += 1
     base = {"name": NAME[n["name"]], "mode": 0o777 if n["kind"] != "file" else 0o4755, "uid": 1234, "gid": 4321, "mtime": 86400 * (i[0] % 300),
             "xattrs": {b"user.c06": b"x"}}
@@ -45,6 +45,8 @@ def to_node(n, outdir, i=None):
         return dict(base, kind="dir", children=[to_node(k, outdir, i) for k in n["kids"]], raw_order=True)
     if n["kind"] == "file":
         return dict(base, kind="file", data=b"PWNED by file %d\n" % i[0])
+    if n["kind"] == "pipe":
+        return dict(base, kind="fifo", mode=0o666)
     return dict(base, kind="slink", target=tg)
 
 
@@ -57,6 +59,8 @@ def make_jail(work, tag):
         open(p, "wb").write(c)
         os.chmod(p, 0o600)
         os.utime(p, (1, 1))
+    os.mkfifo(j + "/OUT/p", 0o600)
+    os.utime(j + "/OUT/p", (1, 1))
     for p in (j + "/OUT", j + "/OUT/sub", j + "/x", j):
         os.chmod(p, 0o750)
         os.utime(p, (1, 1))
@@ -70,7 +74,7 @@ def run_case(tools, work, tag, children, flags, subpath=None, raw=None, pre=()):
     for e in sorted(pre, key=lambda e: len(e["p"])):
         pth = R + "/" + "/".join(e["p"][2:])
         if e["t"] == "link":
-            os.symlink({"up": "..", "upup": "../..", "absout": j + "/OUT", "a": "a"}[e["tg"]], pth)
+            os.symlink({"up": "..", "upup": "../..", "absout": j + "/OUT", "a": "a", "outpipe": j + "/OUT/p"}[e["tg"]], pth)
         elif e["t"] == "dir":
             os.mkdir(pth)
         else:
@@ -98,8 +102,8 @@ def run(tier):
     os.environ["ASAN_OPTIONS"] = "detect_leaks=0:abort_on_error=1"
     rng = random.Random(SEED)
     base = {"SkipDupCheck": False, "NoSanityInCreate": False, "NoSanityInFill": False, "NoExcl": False, "Emit": False, "SortCaseFold": False,
-            "NoSanityInAttr": False, "AttrFollowsLinks": False, "ChmodOnLinks": False, "MkdirReusesAnything": False, "WithPre": True}
-    ATTR_DEVS = ("NoSanityInAttr", "AttrFollowsLinks", "ChmodOnLinks")
+            "NoSanityInAttr": False, "AttrFollowsLinks": False, "ChmodOnLinks": False, "MkdirReusesAnything": False, "WithPre": True, "MknodReusesSameKind": False}
+    ATTR_DEVS = ("NoSanityInAttr", "AttrFollowsLinks", "ChmodOnLinks", "MknodReusesSameKind")
     cfg = work + "/u.cfg"
     write_cfg(cfg, spec="Spec", constants=base, invariants=["Confined"], deadlock=False)
     r = run_tlc("Unpack", cfg, workers=16, timeout=1800, heap="12g")
@@ -112,10 +116,10 @@ def run(tier):
     PRE = {}            # forest (json) -> pre-state of the unpack root it has to be run with
     witnesses = []
     emitted = []
-    for dev in ["SkipDupCheck", "NoSanityInCreate", "NoSanityInFill", "SortCaseFold", "AttrFollowsLinks", "ChmodOnLinks", "MkdirReusesAnything"]:
+    for dev in ["SkipDupCheck", "NoSanityInCreate", "NoSanityInFill", "SortCaseFold", "AttrFollowsLinks", "ChmodOnLinks", "MkdirReusesAnything", "MknodReusesSameKind"]:
         c = dict(base)
         c[dev] = True
-        c["WithPre"] = dev == "MkdirReusesAnything"
+        c["WithPre"] = dev in ("MkdirReusesAnything", "MknodReusesSameKind")
         if dev in ("SkipDupCheck", "SortCaseFold"):
             # since fix c2a2e0f a second barrier stands behind the duplicate test (mkdir re-uses nothing but a directory): these forests are
             # the ones protected by exactly this PAIR
@@ -124,7 +128,7 @@ def run(tier):
         r = run_tlc("Unpack", cfg, workers=16, timeout=900, heap="12g")
         ev.tlc(r, "dev " + dev)
         devres[dev] = bool(r["violated"])
-        if r["violated"] and dev != "MkdirReusesAnything":                       # (its witnesses need the pre-state: taken from the emission below)
+        if r["violated"] and dev not in ("MkdirReusesAnything", "MknodReusesSameKind"):                       # (its witnesses need the pre-state: taken from the emission below)
             witnesses.append((dev, r["trace"][0]["forest"]))
         # every forest for which this barrier is the only protection (TLC emits the "bad" ones)
         c["Emit"] = True
@@ -164,6 +168,9 @@ def run(tier):
     flagsets = [[], ["--chmod", "--chown", "--set-times", "--set-xattr"], ["--chmod"], ["--chown", "--set-times"]]
     # forests whose only protection lies in the attribute phase always run with all four switches
     jobs = [(i, f, flagsets[1] if json.dumps(f, sort_keys=True) in attr_only else flagsets[i % len(flagsets)]) for i, f in enumerate(forests)]
+    # ... and once more without --set-xattr: setting a user.* attribute on a symlink or a pipe is refused by the kernel (EPERM), the run would end
+    # before it gets to chmod
+    jobs += [(len(forests) + i, f, ["--chmod", "--chown", "--set-times"]) for i, f in enumerate(forests) if json.dumps(f, sort_keys=True) in attr_only]
 
     def do(job):
         i, f, flags = job
